@@ -5,6 +5,7 @@ import (
 	"fmt"
 	"log"
 	"net"
+	"net/url"
 	"os"
 	"runtime"
 	"strconv"
@@ -52,6 +53,14 @@ func (r routecmd) build() []string {
 			// add .local suffix on OSX for simple host names w/o domain
 			if runtime.GOOS == "darwin" && !strings.Contains(addr, ".") && !strings.HasSuffix(addr, ".local") {
 				addr += ".local"
+			}
+
+			// The zone of an IPv6 address (fe80::1%eth0) is written as
+			// %25eth0 in a URL (RFC 6874). Written verbatim net/url reads
+			// '%et' as a percent-escape: the target is refused or, for a
+			// zone like 'bce0', is another host than the registered one.
+			if i := strings.IndexByte(addr, '%'); i >= 0 && strings.Contains(addr[:i], ":") {
+				addr = addr[:i] + "%25" + url.PathEscape(addr[i+1:])
 			}
 
 			addr = net.JoinHostPort(addr, strconv.Itoa(port))
